@@ -2,11 +2,9 @@ import DustVerif.Model.MatchSet
 import DustVerif.Proofs.MatchWorldReach
 /-! Property C16: the matched-status counters of a data writer / data reader track the actual matched set.
     All theorems are about `run side St.init ops` for ALL lists `ops` of bookkeeping steps (discover / re-announce with
-    another record / undiscover / participant gone / read status), i.e. about every state the bookkeeping can reach.
-    The model is the code with fixes/D3.patch and fixes/D21.patch; what the unrepaired code did is kept as
-    `…AsIs` regression witnesses; the two open defects D22 (an endpoint that became incompatible stays matched) and
-    D23 (participant removal does not touch the counters / the reader's matched list) have `_counterexample`
-    witnesses and `_partial` theorems. -/
+    another record or another compatibility verdict / undiscover / participant gone / read status), i.e. about every state
+    the bookkeeping can reach. The model is the code with the repairs D3, D21, D22 and D23; what the unrepaired code did is
+    kept as `…AsIs` / `…Old` model functions with regression witnesses (`…_counterexample`). -/
 namespace DustVerif.MatchSet
 
 /-! ### list lemmas -/
@@ -127,23 +125,47 @@ theorem pkeys_filter_kept (m : List Ann) (p : Nat) (l : List Proxy) :
 
 /-- the RTPS proxies are exactly the matched endpoints (same order), and no endpoint is matched twice -/
 def ProxiesExact (s : St) : Prop := pkeys s.proxies = keys s.matched ∧ (keys s.matched).Nodup
-/-- weaker: every proxy belongs to a matched endpoint -/
-def ProxiesSub (s : St) : Prop := (∀ k ∈ pkeys s.proxies, k ∈ keys s.matched) ∧ (keys s.matched).Nodup
 /-- `current_count` is the size of the matched list -/
 def CountOk (s : St) : Prop := s.status.current = s.matched.length
 
-def noGone : List Step → Bool
-  | [] => true
-  | .gone _ :: _ => false
-  | _ :: xs => noGone xs
+/-! ### every step keeps the invariants -/
+
+theorem undiscover_exact (s : St) (k : Key) (h : ProxiesExact s) : ProxiesExact (undiscover s k) := by
+  obtain ⟨hp, hn⟩ := h
+  unfold undiscover
+  split
+  · refine ⟨?_, ?_⟩
+    · simp only [keys_eraseKey_of_nodup k _ hn, pkeys_filter_notKey, hp]
+    · simp only [keys_eraseKey_of_nodup k _ hn]
+      exact nodup_filter _ _ hn
+  · exact ⟨hp, hn⟩
+
+theorem undiscover_count (s : St) (k : Key) (h : CountOk s) : CountOk (undiscover s k) := by
+  unfold undiscover
+  split
+  · simp [CountOk]
+  · exact h
+
+theorem undiscover_keys (s : St) (k : Key) (hn : (keys s.matched).Nodup) :
+    keys (undiscover s k).matched = (keys s.matched).filter (keyNe k) := by
+  unfold undiscover
+  split
+  · exact keys_eraseKey_of_nodup k _ hn
+  · rename_i h
+    have hk : k ∉ keys s.matched := fun hm => h ((any_hasKey_iff _ _).mpr hm)
+    symm
+    rw [List.filter_eq_self]
+    intro x hx
+    have : x ≠ k := fun e => hk (e ▸ hx)
+    simpa [keyNe] using this
 
 theorem discover_exact (s : St) (a : Ann) (c : Bool) (l : Nat) (h : ProxiesExact s) : ProxiesExact (discover s a c l) := by
-  obtain ⟨hp, hn⟩ := h
   unfold discover
   split
-  · exact ⟨hp, hn⟩
+  · exact h
   · split
-    · split
+    · obtain ⟨hp, hn⟩ := h
+      split
       · rename_i hk
         have hk' : a.key ∈ keys s.matched := (any_hasKey_iff _ _).mp hk
         refine ⟨?_, ?_⟩
@@ -162,43 +184,7 @@ theorem discover_exact (s : St) (a : Ann) (c : Bool) (l : Nat) (h : ProxiesExact
           simp only [List.mem_singleton] at hy
           subst hy
           exact fun e => hk' (e ▸ hx)
-    · exact ⟨hp, hn⟩
-
-theorem undiscover_exact (s : St) (k : Key) (h : ProxiesExact s) : ProxiesExact (undiscover s k) := by
-  obtain ⟨hp, hn⟩ := h
-  unfold undiscover
-  split
-  · refine ⟨?_, ?_⟩
-    · simp only [keys_eraseKey_of_nodup k _ hn, pkeys_filter_notKey, hp]
-    · simp only [keys_eraseKey_of_nodup k _ hn]
-      exact nodup_filter _ _ hn
-  · exact ⟨hp, hn⟩
-
-theorem goneWriter_exact (s : St) (p : Nat) (h : ProxiesExact s) : ProxiesExact (goneWriter s p) := by
-  obtain ⟨hp, hn⟩ := h
-  unfold goneWriter
-  refine ⟨?_, ?_⟩
-  · simp only [keys_filter, pkeys_filter_kept, hp]
-    apply List.filter_congr
-    intro k hk
-    simp [hk]
-  · simp only [keys_filter]
-    exact nodup_filter _ _ hn
-
-/-- C16 (writer side, proxies): in every reachable state of a data WRITER — participant removal included — the RTPS
-    reader proxies are exactly the matched subscriptions and no subscription is matched twice -/
-theorem C16_proxies_writer (ops : List Step) : ProxiesExact (run .writer St.init ops) := by
-  suffices h : ∀ s, ProxiesExact s → ProxiesExact (run .writer s ops) from h _ ⟨rfl, by simp [St.init, keys]⟩
-  induction ops with
-  | nil => intro s h; exact h
-  | cons x xs ih =>
-    intro s h
-    apply ih
-    cases x with
-    | discover a c l => exact discover_exact s a c l h
-    | undiscover k => exact undiscover_exact s k h
-    | gone p => exact goneWriter_exact s p h
-    | read => exact h
+    · exact undiscover_exact s a.key h
 
 theorem discover_count (s : St) (a : Ann) (c : Bool) (l : Nat) (h : CountOk s) : CountOk (discover s a c l) := by
   unfold discover
@@ -206,66 +192,64 @@ theorem discover_count (s : St) (a : Ann) (c : Bool) (l : Nat) (h : CountOk s) :
   · exact h
   · split
     · split <;> simp [CountOk]
-    · exact h
+    · exact undiscover_count s a.key h
 
-theorem undiscover_count (s : St) (k : Key) (h : CountOk s) : CountOk (undiscover s k) := by
-  unfold undiscover
-  split
-  · simp [CountOk]
-  · exact h
+theorem foldl_undiscover (P : St → Prop) (h : ∀ s k, P s → P (undiscover s k)) :
+    ∀ (l : List Key) (s : St), P s → P (l.foldl undiscover s) := by
+  intro l
+  induction l with
+  | nil => intro s hs; exact hs
+  | cons k ks ih => intro s hs; exact ih _ (h s k hs)
 
-/-- C16 (current_count, partial — excludes participant removal, finding D23): along every step list WITHOUT a
-    `gone` step, on both sides, `current_count` is the number of matched endpoints and the RTPS proxies are exactly
-    the matched endpoints. Participant removal (lease expiry / ignore_participant) is excluded: see the two
-    counterexamples below. -/
-theorem C16_current_partial (side : Side) (ops : List Step) (hng : noGone ops = true) :
-    CountOk (run side St.init ops) ∧ ProxiesExact (run side St.init ops) := by
-  suffices h : ∀ s, CountOk s ∧ ProxiesExact s → CountOk (run side s ops) ∧ ProxiesExact (run side s ops) from
-    h _ ⟨rfl, rfl, by simp [St.init, keys]⟩
+theorem gone_exact (s : St) (p : Nat) (h : ProxiesExact s) : ProxiesExact (gone s p) :=
+  foldl_undiscover ProxiesExact undiscover_exact _ s h
+
+theorem gone_count (s : St) (p : Nat) (h : CountOk s) : CountOk (gone s p) :=
+  foldl_undiscover CountOk undiscover_count _ s h
+
+def Good (s : St) : Prop := CountOk s ∧ ProxiesExact s
+
+theorem step_good (side : Side) (s : St) (x : Step) (h : Good s) : Good (step side s x) := by
+  cases x with
+  | discover a c l => exact ⟨discover_count s a c l h.1, discover_exact s a c l h.2⟩
+  | undiscover k => exact ⟨undiscover_count s k h.1, undiscover_exact s k h.2⟩
+  | gone p => exact ⟨gone_count s p h.1, gone_exact s p h.2⟩
+  | read => exact h
+
+theorem run_good (side : Side) (ops : List Step) : ∀ s, Good s → Good (run side s ops) := by
   induction ops with
   | nil => intro s h; exact h
-  | cons x xs ih =>
-    intro s h
-    cases x with
-    | discover a c l => exact ih hng _ ⟨discover_count s a c l h.1, discover_exact s a c l h.2⟩
-    | undiscover k => exact ih hng _ ⟨undiscover_count s k h.1, undiscover_exact s k h.2⟩
-    | gone p => exact absurd hng (by simp [noGone])
-    | read => exact ih hng _ h
+  | cons x xs ih => intro s h; exact ih _ (step_good side s x h)
 
-/-- C16 (current_count on the READER side, all steps): the reader's `current_count` is always the length of its matched
-    list — because participant removal does not touch that list at all (which is the defect, see below) -/
-theorem C16_current_reader_count (ops : List Step) : CountOk (run .reader St.init ops) := by
-  suffices h : ∀ s, CountOk s → CountOk (run .reader s ops) from h _ rfl
-  induction ops with
-  | nil => intro s h; exact h
-  | cons x xs ih =>
-    intro s h
-    apply ih
-    cases x with
-    | discover a c l => exact discover_count s a c l h
-    | undiscover k => exact undiscover_count s k h
-    | gone p => exact h
-    | read => exact h
+theorem init_good : Good St.init := ⟨rfl, rfl, by simp [St.init, keys]⟩
+
+/-- C16 (current_count and proxies): on both sides and for ALL step lists — participant removal and incompatible
+    re-announcements included — `current_count` is the number of matched endpoints, the RTPS proxies are exactly the matched
+    endpoints (same order) and no endpoint is matched twice -/
+theorem C16_current (side : Side) (ops : List Step) :
+    CountOk (run side St.init ops) ∧ ProxiesExact (run side St.init ops) :=
+  run_good side ops _ init_good
 
 def kA : Key := ⟨1, 7⟩
 def kB : Key := ⟨2, 7⟩
 
-/-- D23, writer side: after the participant of the only matched reader is removed, the matched list is empty but
-    `current_count` is still 1 -/
-theorem C16_current_counterexample :
-    let s := run .writer St.init [.discover ⟨kA, 0⟩ true 7, .gone 1]
+/-- regression witness for the repaired defect D23, writer side: the unrepaired participant removal emptied the matched list
+    but left `current_count` at 1 -/
+theorem C16_current_old_counterexample :
+    let s := goneWriterOld (discover St.init ⟨kA, 0⟩ true 7) 1
     s.matched = [] ∧ s.status.current = 1 := by decide
 
-/-- D23, reader side: the writer's participant is removed: the RTPS writer proxy is deleted but the writer stays in the
-    matched list and `current_count` stays 1 -/
-theorem C16_current_reader_counterexample :
-    let s := run .reader St.init [.discover ⟨kA, 0⟩ true 7, .gone 1]
+/-- regression witness for D23, reader side: the unrepaired removal deleted the RTPS writer proxy but kept the writer in the
+    matched list with `current_count` 1 -/
+theorem C16_current_reader_old_counterexample :
+    let s := goneReaderOld (discover St.init ⟨kA, 0⟩ true 7) 1
     s.matched = [⟨kA, 0⟩] ∧ s.status.current = 1 ∧ addressees s = [] := by decide
 
-/-- non-vacuity: a run with a match, a re-announcement, a second match, a removal and a status read -/
-example : noGone [.discover ⟨kA, 0⟩ true 7, .discover ⟨kA, 1⟩ true 7, .discover ⟨kB, 0⟩ true 7, .undiscover kA, .read] = true ∧
-    (run .writer St.init [.discover ⟨kA, 0⟩ true 7, .discover ⟨kA, 1⟩ true 7, .discover ⟨kB, 0⟩ true 7, .undiscover kA, .read]).matched
-      = [⟨kB, 0⟩] := by decide
+/-- non-vacuity: a match, a re-announcement, a second match, an endpoint that becomes incompatible, a participant removal -/
+example :
+    (run .writer St.init [.discover ⟨kA, 0⟩ true 7, .discover ⟨kA, 1⟩ true 7, .discover ⟨kB, 0⟩ true 7, .read,
+      .discover ⟨kA, 2⟩ false 7]).status = ⟨2, 0, 1, -1⟩ ∧
+    (run .reader St.init [.discover ⟨kA, 0⟩ true 7, .discover ⟨kB, 0⟩ true 7, .gone 1]).matched = [⟨kB, 0⟩] := by decide
 
 /-! ### no traffic to a removed endpoint -/
 
@@ -284,199 +268,22 @@ theorem mem_upsert (p : Proxy) (x : Key) (l : List Proxy) : x ∈ pkeys (upsertP
       · exact h' ▸ h
   · rw [upsert_new p l h]; simp
 
-theorem mem_keys_eraseKey (k x : Key) (l : List Ann) (h : x ∈ keys (eraseKey k l)) : x ∈ keys l := by
-  induction l with
-  | nil => exact h
-  | cons y ys ih =>
-    unfold eraseKey at h
-    split at h
-    · simp only [keys, List.map_cons, List.mem_cons]; exact Or.inr h
-    · simp only [keys, List.map_cons, List.mem_cons] at h ⊢
-      rcases h with h | h
-      · exact Or.inl h
-      · exact Or.inr (ih h)
+theorem undiscover_not_proxy (s : St) (k k' : Key) (hk : k ∉ pkeys s.proxies) : k ∉ pkeys (undiscover s k').proxies := by
+  unfold undiscover
+  split
+  · intro h
+    simp only [pkeys_filter_notKey] at h
+    exact hk (List.mem_filter.mp h).1
+  · exact hk
 
-theorem step_sub (side : Side) (s : St) (x : Step) (h : ProxiesSub s) : ProxiesSub (step side s x) := by
-  obtain ⟨hp, hn⟩ := h
-  cases x with
-  | discover a c l =>
-    simp only [step, discover]
-    split
-    · exact ⟨hp, hn⟩
-    · split
-      · split
-        · rename_i hk
-          have hk' : a.key ∈ keys s.matched := (any_hasKey_iff _ _).mp hk
-          refine ⟨?_, by simpa only [keys_replaceAnn] using hn⟩
-          intro x hx
-          simp only [keys_replaceAnn]
-          rcases (mem_upsert ⟨a.key, l⟩ _ _).mp hx with h | h
-          · exact hp x h
-          · exact h ▸ hk'
-        · rename_i hk
-          have hk' : a.key ∉ keys s.matched := fun h => hk ((any_hasKey_iff _ _).mpr h)
-          refine ⟨?_, ?_⟩
-          · intro x hx
-            simp only [keys_append, List.mem_append, List.mem_singleton]
-            rcases (mem_upsert ⟨a.key, l⟩ _ _).mp hx with h | h
-            · exact Or.inl (hp x h)
-            · exact Or.inr h
-          · simp only [keys_append]
-            rw [List.nodup_append]
-            refine ⟨hn, by simp, ?_⟩
-            intro x hx y hy
-            simp only [List.mem_singleton] at hy
-            subst hy
-            exact fun e => hk' (e ▸ hx)
-      · exact ⟨hp, hn⟩
-  | undiscover k =>
-    simp only [step, undiscover]
-    split
-    · refine ⟨?_, ?_⟩
-      · intro x hx
-        simp only [keys_eraseKey_of_nodup k _ hn]
-        simp only [pkeys_filter_notKey, List.mem_filter] at hx ⊢
-        exact ⟨hp x hx.1, hx.2⟩
-      · simp only [keys_eraseKey_of_nodup k _ hn]
-        exact nodup_filter _ _ hn
-    · exact ⟨hp, hn⟩
-  | gone p =>
-    cases side
-    · simp only [step, goneWriter]
-      refine ⟨?_, ?_⟩
-      · intro x hx
-        simp only [keys_filter]
-        simp only [pkeys_filter_kept, List.mem_filter] at hx ⊢
-        refine ⟨hp x hx.1, ?_⟩
-        have := hp x hx.1
-        simpa [this] using hx.2
-      · simp only [keys_filter]
-        exact nodup_filter _ _ hn
-    · simp only [step, goneReader]
-      refine ⟨?_, hn⟩
-      intro x hx
-      simp only [pkeys_filter_kept, List.mem_filter] at hx
-      exact hp x hx.1
-  | read => exact ⟨hp, hn⟩
-
-theorem run_sub (side : Side) (ops : List Step) : ∀ s, ProxiesSub s → ProxiesSub (run side s ops) := by
-  induction ops with
-  | nil => intro s h; exact h
-  | cons x xs ih => intro s h; exact ih _ (step_sub side s x h)
-
-theorem init_sub : ProxiesSub St.init := ⟨by simp [St.init, pkeys], by simp [St.init, keys]⟩
-
-/-- C16 (proxies, both sides, all steps): every RTPS proxy belongs to a matched endpoint, and no endpoint is matched twice -/
-theorem C16_proxies_matched (side : Side) (ops : List Step) : ProxiesSub (run side St.init ops) :=
-  run_sub side ops _ init_sub
-
-/-- no step of the list announces endpoint `k` -/
-def noDiscoverOf (k : Key) : List Step → Bool
+/-- no step of the list announces endpoint `k` as compatible -/
+def noCompatDiscoverOf (k : Key) : List Step → Bool
   | [] => true
-  | .discover a _ _ :: xs => !(a.key == k) && noDiscoverOf k xs
-  | _ :: xs => noDiscoverOf k xs
+  | .discover a c _ :: xs => (!(a.key == k) || !c) && noCompatDiscoverOf k xs
+  | _ :: xs => noCompatDiscoverOf k xs
 
 theorem step_not_proxy (side : Side) (s : St) (x : Step) (k : Key) (hk : k ∉ pkeys s.proxies)
-    (hx : ∀ a c l, x = .discover a c l → a.key ≠ k) : k ∉ pkeys (step side s x).proxies := by
-  cases x with
-  | discover a c l =>
-    simp only [step, discover]
-    have hne := hx a c l rfl
-    split
-    · exact hk
-    · split
-      · split <;>
-        · intro h
-          rcases (mem_upsert ⟨a.key, l⟩ _ _).mp h with h | h
-          · exact hk h
-          · exact hne h.symm
-      · exact hk
-  | undiscover k' =>
-    simp only [step, undiscover]
-    split
-    · intro h
-      simp only [pkeys_filter_notKey] at h
-      exact hk (List.mem_filter.mp h).1
-    · exact hk
-  | gone p =>
-    cases side <;>
-    · simp only [step, goneWriter, goneReader]
-      intro h
-      simp only [pkeys_filter_kept] at h
-      exact hk (List.mem_filter.mp h).1
-  | read => exact hk
-
-theorem run_not_proxy (side : Side) (k : Key) (ops : List Step) (h : noDiscoverOf k ops = true) :
-    ∀ s, k ∉ pkeys s.proxies → k ∉ pkeys (run side s ops).proxies := by
-  induction ops with
-  | nil => intro s hk; exact hk
-  | cons x xs ih =>
-    intro s hk
-    have hx : (∀ a c l, x = .discover a c l → a.key ≠ k) ∧ noDiscoverOf k xs = true := by
-      cases x <;> simp_all [noDiscoverOf]
-    exact ih hx.2 _ (step_not_proxy side s x k hk hx.1)
-
-/-- C16 (not addressed, endpoint deleted): on both sides, after ANY history `ops1`, once the deletion of the remote endpoint
-    `k` has been processed, `k` is not among the endpoints RTPS messages (DATA, HEARTBEAT, GAP / ACKNACK) are addressed
-    to — and stays out along every continuation `ops2` in which `k` is not announced again -/
-theorem C16_not_addressed (side : Side) (ops1 ops2 : List Step) (k : Key) (h : noDiscoverOf k ops2 = true) :
-    k ∉ addressees (run side St.init (ops1 ++ [.undiscover k] ++ ops2)) := by
-  rw [run_append, run_append]
-  apply run_not_proxy side k ops2 h
-  have hs := C16_proxies_matched side ops1
-  generalize run side St.init ops1 = s at hs
-  simp only [run, step, undiscover]
-  split
-  · intro hm
-    simp only [pkeys_filter_notKey] at hm
-    simpa [keyNe] using (List.mem_filter.mp hm).2
-  · rename_i hk
-    intro hm
-    exact hk ((any_hasKey_iff _ _).mpr (hs.1 k hm))
-
-/-- C16 (not addressed, participant removed): the same after the removal of the participant `p` (deleted, lease expired or
-    ignored) for every endpoint `k` of that participant -/
-theorem C16_not_addressed_gone (side : Side) (ops1 ops2 : List Step) (p : Nat) (k : Key) (hk : k.pfx = p)
-    (h : noDiscoverOf k ops2 = true) :
-    k ∉ addressees (run side St.init (ops1 ++ [.gone p] ++ ops2)) := by
-  rw [run_append, run_append]
-  apply run_not_proxy side k ops2 h
-  have hs := C16_proxies_matched side ops1
-  generalize run side St.init ops1 = s at hs
-  cases side <;>
-  · simp only [run, step, goneWriter, goneReader]
-    intro hm
-    simp only [pkeys_filter_kept] at hm
-    have hm' := List.mem_filter.mp hm
-    have := hs.1 k hm'.1
-    simp [hk, this] at hm'
-
-/-- regression witness for the repaired defect D3: the unrepaired code left the RTPS proxy of a deleted endpoint in place,
-    so heartbeats and data were still addressed to it -/
-theorem C16_not_addressed_asis_counterexample :
-    let s := undiscoverAsIs (discover St.init ⟨kA, 0⟩ true 7) kA
-    s.matched = [] ∧ s.status.current = 0 ∧ kA ∈ addressees s := by decide
-
-example : noDiscoverOf kA [.discover ⟨kB, 0⟩ true 7, .read, .gone 2] = true ∧
-    addressees (run .writer St.init ([.discover ⟨kA, 0⟩ true 7] ++ [.undiscover kA] ++ [.discover ⟨kB, 0⟩ true 7, .read])) = [kB] := by
-  decide
-
-/-! ### an endpoint that became incompatible (D22) -/
-
-/-- D22: a matched reader announces a QoS that is no longer compatible: it stays matched, `current_count` stays 1 and it is
-    still addressed -/
-theorem C16_incompatible_counterexample :
-    let s := run .writer St.init [.discover ⟨kA, 0⟩ true 7, .discover ⟨kA, 1⟩ false 7]
-    s.matched = [⟨kA, 0⟩] ∧ s.status.current = 1 ∧ kA ∈ addressees s ∧ s.incompat = [kA] := by decide
-
-/-- every announcement of endpoint `k` in the list is incompatible -/
-def allIncompat (k : Key) : List Step → Bool
-  | [] => true
-  | .discover a c _ :: xs => (!(a.key == k) || !c) && allIncompat k xs
-  | _ :: xs => allIncompat k xs
-
-theorem step_not_matched (side : Side) (s : St) (x : Step) (k : Key) (hk : k ∉ keys s.matched)
-    (hx : ∀ a c l, x = .discover a c l → a.key ≠ k ∨ c = false) : k ∉ keys (step side s x).matched := by
+    (hx : ∀ a c l, x = .discover a c l → a.key ≠ k ∨ c = false) : k ∉ pkeys (step side s x).proxies := by
   cases x with
   | discover a c l =>
     simp only [step, discover]
@@ -488,50 +295,128 @@ theorem step_not_matched (side : Side) (s : St) (x : Step) (k : Key) (hk : k ∉
           rcases hx a c l rfl with h | h
           · exact h
           · simp [h] at hc
-        split
-        · simpa only [keys_replaceAnn] using hk
-        · simp only [keys_append, List.mem_append, List.mem_singleton]
-          rintro (h | h)
+        split <;>
+        · intro h
+          rcases (mem_upsert ⟨a.key, l⟩ _ _).mp h with h | h
           · exact hk h
           · exact hne h.symm
-      · exact hk
-  | undiscover k' =>
-    simp only [step, undiscover]
-    split
-    · intro h; exact hk (mem_keys_eraseKey _ _ _ h)
-    · exact hk
+      · exact undiscover_not_proxy s k a.key hk
+  | undiscover k' => exact undiscover_not_proxy s k k' hk
   | gone p =>
-    cases side
-    · simp only [step, goneWriter, keys_filter]
-      intro h; exact hk (List.mem_filter.mp h).1
-    · exact hk
+    exact foldl_undiscover (fun t => k ∉ pkeys t.proxies) (fun t k' h => undiscover_not_proxy t k k' h) _ s hk
   | read => exact hk
 
-/-- C16 (incompatible endpoints, partial — excludes an endpoint that WAS compatible and then changed, finding D22):
-    on both sides, an endpoint all of whose announcements are incompatible is never in the matched list and is never
-    addressed -/
-theorem C16_incompatible_partial (side : Side) (ops : List Step) (k : Key) (h : allIncompat k ops = true) :
-    k ∉ keys (run side St.init ops).matched ∧ k ∉ addressees (run side St.init ops) := by
-  have h1 : ∀ s, k ∉ keys s.matched → k ∉ keys (run side s ops).matched := by
-    induction ops with
-    | nil => intro s hk; exact hk
-    | cons x xs ih =>
-      intro s hk
-      have hx : (∀ a c l, x = .discover a c l → a.key ≠ k ∨ c = false) ∧ allIncompat k xs = true := by
-        cases x with
-        | discover a c l =>
-          simp only [allIncompat, Bool.and_eq_true, Bool.or_eq_true, Bool.not_eq_true', beq_eq_false_iff_ne] at h
-          refine ⟨?_, h.2⟩
-          intro a' c' l' e
-          cases e
-          exact h.1
-        | _ => simp_all [allIncompat]
-      exact ih hx.2 _ (step_not_matched side s x k hk hx.1)
-  have hm := h1 St.init (by simp [St.init, keys])
-  exact ⟨hm, fun hp => hm ((C16_proxies_matched side ops).1 k hp)⟩
+theorem run_not_proxy (side : Side) (k : Key) (ops : List Step) (h : noCompatDiscoverOf k ops = true) :
+    ∀ s, k ∉ pkeys s.proxies → k ∉ pkeys (run side s ops).proxies := by
+  induction ops with
+  | nil => intro s hk; exact hk
+  | cons x xs ih =>
+    intro s hk
+    have hx : (∀ a c l, x = .discover a c l → a.key ≠ k ∨ c = false) ∧ noCompatDiscoverOf k xs = true := by
+      cases x with
+      | discover a c l =>
+        simp only [noCompatDiscoverOf, Bool.and_eq_true, Bool.or_eq_true, Bool.not_eq_true', beq_eq_false_iff_ne] at h
+        refine ⟨?_, h.2⟩
+        intro a' c' l' e
+        cases e
+        exact h.1
+      | _ => simp_all [noCompatDiscoverOf]
+    exact ih hx.2 _ (step_not_proxy side s x k hk hx.1)
 
-example : allIncompat kA [.discover ⟨kA, 0⟩ false 7, .discover ⟨kB, 0⟩ true 7, .discover ⟨kA, 1⟩ false 7] = true := by decide
+theorem undiscover_removes (s : St) (k : Key) (h : ProxiesExact s) : k ∉ pkeys (undiscover s k).proxies := by
+  have he := undiscover_exact s k h
+  rw [he.1, undiscover_keys s k h.2]
+  intro hm
+  simpa [keyNe] using (List.mem_filter.mp hm).2
 
+/-- C16 (not addressed, endpoint deleted): on both sides, after ANY history `ops1`, once the deletion of the remote endpoint
+    `k` has been processed, `k` is not among the endpoints RTPS messages (DATA, HEARTBEAT, GAP / ACKNACK) are addressed
+    to — and stays out along every continuation `ops2` in which `k` is not announced again as compatible -/
+theorem C16_not_addressed (side : Side) (ops1 ops2 : List Step) (k : Key) (h : noCompatDiscoverOf k ops2 = true) :
+    k ∉ addressees (run side St.init (ops1 ++ [.undiscover k] ++ ops2)) := by
+  rw [run_append, run_append]
+  apply run_not_proxy side k ops2 h
+  exact undiscover_removes _ k (C16_current side ops1).2
+
+theorem foldl_undiscover_keys : ∀ (l : List Key) (s : St), (keys s.matched).Nodup →
+    ∀ x, x ∈ keys (l.foldl undiscover s).matched → x ∈ keys s.matched ∧ x ∉ l := by
+  intro l
+  induction l with
+  | nil => intro s _ x hx; exact ⟨hx, by simp⟩
+  | cons k ks ih =>
+    intro s hn x hx
+    have hn' : (keys (undiscover s k).matched).Nodup := by
+      rw [undiscover_keys s k hn]; exact nodup_filter _ _ hn
+    have := ih (undiscover s k) hn' x hx
+    rw [undiscover_keys s k hn] at this
+    have hf := List.mem_filter.mp this.1
+    refine ⟨hf.1, ?_⟩
+    simp only [List.mem_cons, not_or]
+    exact ⟨by simpa [keyNe] using hf.2, this.2⟩
+
+theorem gone_removes (s : St) (p : Nat) (k : Key) (hk : k.pfx = p) (h : ProxiesExact s) : k ∉ pkeys (gone s p).proxies := by
+  rw [(gone_exact s p h).1]
+  intro hm
+  have := foldl_undiscover_keys (goneKeys s p) s h.2 k hm
+  exact this.2 (List.mem_filter.mpr ⟨this.1, by simp [hk]⟩)
+
+/-- C16 (not addressed, participant removed): the same after the removal of the participant `p` (deleted, lease expired or
+    ignored) for every endpoint `k` of that participant -/
+theorem C16_not_addressed_gone (side : Side) (ops1 ops2 : List Step) (p : Nat) (k : Key) (hk : k.pfx = p)
+    (h : noCompatDiscoverOf k ops2 = true) :
+    k ∉ addressees (run side St.init (ops1 ++ [.gone p] ++ ops2)) := by
+  rw [run_append, run_append]
+  apply run_not_proxy side k ops2 h
+  exact gone_removes _ p k hk (C16_current side ops1).2
+
+/-- C16 (participant removed, matched set): after the removal of participant `p` none of its endpoints is matched -/
+theorem C16_gone_unmatched (side : Side) (ops : List Step) (p : Nat) (k : Key) (hk : k.pfx = p) :
+    k ∉ keys (run side St.init (ops ++ [.gone p])).matched := by
+  rw [run_append]
+  have h := (C16_current side ops).2
+  intro hm
+  have := foldl_undiscover_keys (goneKeys _ p) _ h.2 k hm
+  exact this.2 (List.mem_filter.mpr ⟨this.1, by simp [hk]⟩)
+
+/-- regression witness for the repaired defect D3: the unrepaired code left the RTPS proxy of a deleted endpoint in place,
+    so heartbeats and data were still addressed to it -/
+theorem C16_not_addressed_asis_counterexample :
+    let s := undiscoverAsIs (discover St.init ⟨kA, 0⟩ true 7) kA
+    s.matched = [] ∧ s.status.current = 0 ∧ kA ∈ addressees s := by decide
+
+example : noCompatDiscoverOf kA [.discover ⟨kB, 0⟩ true 7, .read, .gone 2, .discover ⟨kA, 5⟩ false 7] = true ∧
+    addressees (run .writer St.init ([.discover ⟨kA, 0⟩ true 7] ++ [.undiscover kA] ++ [.discover ⟨kB, 0⟩ true 7, .read])) = [kB] := by
+  decide
+
+/-! ### an endpoint that is not compatible (any more) -/
+
+/-- C16 (incompatible endpoint): on both sides, after ANY history — in particular when the endpoint was matched before —, once
+    an announcement of endpoint `a.key` has been found incompatible (because its QoS or the local QoS changed), the endpoint
+    is not in the matched list and not addressed, and stays out along every continuation without a compatible
+    announcement of it -/
+theorem C16_incompatible (side : Side) (ops1 ops2 : List Step) (a : Ann) (l : Nat) (h : noCompatDiscoverOf a.key ops2 = true) :
+    a.key ∉ addressees (run side St.init (ops1 ++ [.discover a false l] ++ ops2)) ∧
+    a.key ∉ keys (run side St.init (ops1 ++ [.discover a false l] ++ ops2)).matched := by
+  have hnp : a.key ∉ addressees (run side St.init (ops1 ++ [.discover a false l] ++ ops2)) := by
+    rw [run_append, run_append]
+    apply run_not_proxy side a.key ops2 h
+    have hs := (C16_current side ops1).2
+    simp only [run, step, discover, Bool.and_false, Bool.false_eq_true, if_false]
+    exact undiscover_removes _ a.key hs
+  refine ⟨hnp, ?_⟩
+  have := (C16_current side (ops1 ++ [.discover a false l] ++ ops2)).2.1
+  rw [← this]; exact hnp
+
+/-- regression witness for the repaired defect D22: the unrepaired code kept an endpoint that became incompatible in the matched
+    list, with `current_count` 1, and went on addressing it -/
+theorem C16_incompatible_old_counterexample :
+    let s := discoverOld (discoverOld St.init ⟨kA, 0⟩ true 7) ⟨kA, 1⟩ false 7
+    s.matched = [⟨kA, 0⟩] ∧ s.status.current = 1 ∧ kA ∈ addressees s ∧ s.incompat = [kA] := by decide
+
+/-- the same when the LOCAL QoS changed (identical remote record, new verdict): the unrepaired shortcut skipped the endpoint -/
+theorem C16_incompatible_local_old_counterexample :
+    discoverOld (discoverOld St.init ⟨kA, 0⟩ true 7) ⟨kA, 0⟩ false 7 = discoverOld St.init ⟨kA, 0⟩ true 7 ∧
+    (discover (discover St.init ⟨kA, 0⟩ true 7) ⟨kA, 0⟩ false 7).matched = [] := by decide
 
 /-! ### total_count -/
 
@@ -548,24 +433,33 @@ def newMatches (side : Side) (s : St) : List Step → Nat
 theorem mem_imp_key (s : St) (a : Ann) (h : a ∈ s.matched) : a.key ∈ keys s.matched :=
   List.mem_map_of_mem (f := Ann.key) h
 
+theorem undiscover_total (s : St) (k : Key) : (undiscover s k).status.total = s.status.total ∧
+    (undiscover s k).status.dTotal = s.status.dTotal := by
+  unfold undiscover
+  split <;> exact ⟨rfl, rfl⟩
+
+theorem gone_total (s : St) (p : Nat) : (gone s p).status.total = s.status.total ∧ (gone s p).status.dTotal = s.status.dTotal := by
+  have := foldl_undiscover (fun t => t.status.total = s.status.total ∧ t.status.dTotal = s.status.dTotal)
+    (fun t k h => by rw [(undiscover_total t k).1, (undiscover_total t k).2]; exact h) (goneKeys s p) s ⟨rfl, rfl⟩
+  exact this
+
 theorem step_total (side : Side) (s : St) (x : Step) :
     (step side s x).status.total = s.status.total + (if isNewMatch s x then 1 else 0) := by
   cases x with
   | discover a c l =>
     simp only [step, discover, isNewMatch]
-    by_cases h1 : a ∈ s.matched
-    · simp [h1, mem_imp_key s a h1]
-    · cases c
-      · simp [h1]
+    cases c with
+    | false => simp [(undiscover_total s a.key).1]
+    | true =>
+      by_cases h1 : a ∈ s.matched
+      · simp [h1, mem_imp_key s a h1]
       · by_cases h2 : s.matched.any (hasKey a.key) = true
         · have := (any_hasKey_iff _ _).mp h2
           simp [h1, h2, this]
         · have : a.key ∉ keys s.matched := fun h => h2 ((any_hasKey_iff _ _).mpr h)
           simp [h1, h2, this]
-  | undiscover k =>
-    simp only [step, undiscover, isNewMatch]
-    split <;> simp
-  | gone p => cases side <;> simp [step, goneWriter, goneReader, isNewMatch]
+  | undiscover k => simp [step, isNewMatch, (undiscover_total s k).1]
+  | gone p => simp [step, isNewMatch, (gone_total s p).1]
   | read => simp [step, readStatus, isNewMatch]
 
 /-- C16 (total_count): on both sides and for ALL step lists, `total_count` is the number of steps that added an
@@ -589,7 +483,8 @@ theorem C16_total_asis_counterexample :
     let s := discoverAsIs (discoverAsIs St.init ⟨kA, 0⟩ true 7) ⟨kA, 1⟩ true 7
     s.matched.length = 1 ∧ s.status.total = 2 ∧ s.status.dCurrent = 2 := by decide
 
-example : newMatches .writer St.init [.discover ⟨kA, 0⟩ true 7, .discover ⟨kA, 1⟩ true 7, .undiscover kA, .discover ⟨kA, 1⟩ true 7] = 2 := by
+example : newMatches .writer St.init [.discover ⟨kA, 0⟩ true 7, .discover ⟨kA, 1⟩ true 7, .discover ⟨kA, 2⟩ false 7,
+    .discover ⟨kA, 1⟩ true 7, .gone 1, .discover ⟨kA, 1⟩ true 7] = 3 := by
   decide
 
 /-! ### change fields -/
@@ -612,11 +507,14 @@ theorem step_dTotal (side : Side) (s : St) (x : Step) (hx : x ≠ .read) :
       · split
         · rfl
         · simp only []; omega
-      · rfl
+      · show (undiscover s a.key).status.total - (undiscover s a.key).status.dTotal = _
+        rw [(undiscover_total s a.key).1, (undiscover_total s a.key).2]
   | undiscover k =>
-    simp only [step, undiscover]
-    split <;> rfl
-  | gone p => cases side <;> rfl
+    simp only [step]
+    rw [(undiscover_total s k).1, (undiscover_total s k).2]
+  | gone p =>
+    simp only [step]
+    rw [(gone_total s p).1, (gone_total s p).2]
   | read => exact absurd rfl hx
 
 /-- C16 (change fields, total): for ALL step lists on both sides, `total_count_change` is `total_count` minus the value
@@ -650,92 +548,79 @@ theorem C16_change_total (side : Side) (ops : List Step) :
       apply ih
       rw [step_dTotal side s _ (by simp)]; exact h
 
-theorem step_dCurrent (side : Side) (s : St) (x : Step) (hx : x ≠ .read) (hc : CountOk s)
-    (hg : side = .writer → ∀ p, x ≠ .gone p) :
-    (step side s x).status.current - (step side s x).status.dCurrent = s.status.current - s.status.dCurrent := by
+theorem undiscover_dCurrent (s : St) (k : Key) (hc : CountOk s) :
+    (undiscover s k).status.current - (undiscover s k).status.dCurrent = s.status.current - s.status.dCurrent := by
   unfold CountOk at hc
+  unfold undiscover
+  split
+  · rename_i h
+    have := length_eraseKey k s.matched ((any_hasKey_iff _ _).mp h)
+    simp only []; omega
+  · rfl
+
+theorem gone_dCurrent (s : St) (p : Nat) (hc : CountOk s) :
+    (gone s p).status.current - (gone s p).status.dCurrent = s.status.current - s.status.dCurrent := by
+  have := foldl_undiscover (fun t => CountOk t ∧ t.status.current - t.status.dCurrent = s.status.current - s.status.dCurrent)
+    (fun t k h => ⟨undiscover_count t k h.1, by rw [undiscover_dCurrent t k h.1]; exact h.2⟩) (goneKeys s p) s ⟨hc, rfl⟩
+  exact this.2
+
+theorem step_dCurrent (side : Side) (s : St) (x : Step) (hx : x ≠ .read) (hc : CountOk s) :
+    (step side s x).status.current - (step side s x).status.dCurrent = s.status.current - s.status.dCurrent := by
   cases x with
   | discover a c l =>
     simp only [step, discover]
+    unfold CountOk at hc
     split
     · rfl
     · split
       · split
         · simp only [length_replaceAnn]; omega
         · simp only [List.length_append, List.length_singleton]; omega
-      · rfl
-  | undiscover k =>
-    simp only [step, undiscover]
-    split
-    · rename_i h
-      have := length_eraseKey k s.matched ((any_hasKey_iff _ _).mp h)
-      simp only []; omega
-    · rfl
-  | gone p =>
-    cases side
-    · exact absurd rfl (hg rfl p)
-    · rfl
+      · exact undiscover_dCurrent s a.key hc
+  | undiscover k => exact undiscover_dCurrent s k hc
+  | gone p => exact gone_dCurrent s p hc
   | read => exact absurd rfl hx
 
-/-- steps allowed in `C16_change_current_partial`: everything on the reader side, everything but `gone` on the writer side -/
-def changeOk (side : Side) (ops : List Step) : Prop := side = .reader ∨ noGone ops = true
-
-theorem changeOk_tail (side : Side) (x : Step) (xs : List Step) (h : changeOk side (x :: xs)) : changeOk side xs := by
-  rcases h with h | h
-  · exact Or.inl h
-  · cases x <;> simp_all [noGone, changeOk]
-
-/-- C16 (change fields, current; partial — excludes participant removal on the writer side, finding D23):
-    `current_count_change` is `current_count` minus the value reported by the last status read, for all step lists of a
-    reader and for all step lists without `gone` of a writer -/
-theorem C16_change_current_partial (side : Side) (ops : List Step) (hok : changeOk side ops) :
+/-- C16 (change fields, current): for ALL step lists on both sides — participant removal included — `current_count_change`
+    is `current_count` minus the value reported by the last status read -/
+theorem C16_change_current (side : Side) (ops : List Step) :
     (run side St.init ops).status.dCurrent
       = (run side St.init ops).status.current - (lastRead side St.init (0, 0) ops).2 := by
-  suffices h : ∀ s b, CountOk s → s.status.current - s.status.dCurrent = b.2 →
+  suffices h : ∀ s b, Good s → s.status.current - s.status.dCurrent = b.2 →
       (run side s ops).status.current - (run side s ops).status.dCurrent = (lastRead side s b ops).2 by
-    have := h St.init (0, 0) rfl (by simp [St.init])
+    have := h St.init (0, 0) init_good (by simp [St.init])
     omega
   induction ops with
   | nil => intro s b _ h; simpa [run, lastRead] using h
   | cons x xs ih =>
-    intro s b hc h
-    have hok' := changeOk_tail side x xs hok
-    have hg : side = .writer → ∀ p, x ≠ .gone p := by
-      intro hw p e
-      rcases hok with h | h
-      · simp [hw] at h
-      · subst e; simp [noGone] at h
+    intro s b hg h
+    have hg' := step_good side s x hg
     cases x with
     | read =>
       simp only [run, lastRead]
-      exact ih hok' _ _ hc (by simp [step, readStatus])
+      exact ih _ _ hg' (by simp [step, readStatus])
     | discover a c l =>
       simp only [run, lastRead]
-      refine ih hok' _ _ (discover_count s a c l hc) ?_
-      rw [step_dCurrent side s _ (by simp) hc hg]; exact h
+      refine ih _ _ hg' ?_
+      rw [step_dCurrent side s _ (by simp) hg.1]; exact h
     | undiscover k =>
       simp only [run, lastRead]
-      refine ih hok' _ _ (undiscover_count s k hc) ?_
-      rw [step_dCurrent side s _ (by simp) hc hg]; exact h
+      refine ih _ _ hg' ?_
+      rw [step_dCurrent side s _ (by simp) hg.1]; exact h
     | gone p =>
       simp only [run, lastRead]
-      refine ih hok' _ _ ?_ ?_
-      · cases side
-        · exact absurd rfl (hg rfl p)
-        · exact hc
-      · rw [step_dCurrent side s _ (by simp) hc hg]; exact h
+      refine ih _ _ hg' ?_
+      rw [step_dCurrent side s _ (by simp) hg.1]; exact h
 
-/-- D23, writer side: two readers matched and the status read (current 2); the participant of the first one is removed
-    (nothing is counted), then the second reader is deleted: `current_count` drops from 2 to 0 but
-    `current_count_change` is -1 -/
-theorem C16_change_current_counterexample :
-    let ops := [Step.discover ⟨kA, 0⟩ true 7, .discover ⟨kB, 0⟩ true 7, .read, .gone 1, .undiscover kB]
-    let s := run .writer St.init ops
-    (lastRead .writer St.init (0, 0) ops).2 = 2 ∧ s.status.current = 0 ∧ s.status.dCurrent = -1 := by decide
+/-- regression witness for D23, writer side: two readers matched and the status read (current 2); the unrepaired removal of
+    the first one's participant counted nothing, then the second reader is deleted: `current_count` 2 → 0, change -1 -/
+theorem C16_change_current_old_counterexample :
+    let s0 := (readStatus (discover (discover St.init ⟨kA, 0⟩ true 7) ⟨kB, 0⟩ true 7)).1
+    let s := undiscover (goneWriterOld s0 1) kB
+    s0.status.current = 2 ∧ s.status.current = 0 ∧ s.status.dCurrent = -1 := by decide
 
-example : changeOk .writer [.discover ⟨kA, 0⟩ true 7, .read, .undiscover kA] ∧
-    (run .writer St.init [.discover ⟨kA, 0⟩ true 7, .read, .undiscover kA]).status = ⟨1, 0, 0, -1⟩ := by
-  refine ⟨Or.inr (by decide), by decide⟩
+example : (run .writer St.init [.discover ⟨kA, 0⟩ true 7, .discover ⟨kB, 0⟩ true 7, .read, .gone 1, .undiscover kB]).status
+    = ⟨2, 0, 0, -2⟩ := by decide
 
 /-! ### from the automaton to the world -/
 
@@ -743,19 +628,11 @@ open DustVerif.MatchWorld in
 /-- C16 (world): in every world reachable by the operations of Model/MatchWorld.lean (participants and endpoints created,
     QoS changed, endpoints / participants deleted, participants cut and expired, time advanced, statuses read — what the
     `matchset` driver does to predict the simulator's answers) every endpoint's bookkeeping state is a state of the automaton
-    above, so all theorems of this file apply to it; here: the ones that hold without exception -/
+    above, so all theorems of this file apply to it; here the invariants: `current_count` = size of the matched list, the
+    RTPS proxies are exactly the matched endpoints, `total_count` = number of new matches -/
 theorem C16_world (ops : List WOp) (e : Ep) (he : e ∈ (runOps World.init ops).eps) :
-    ProxiesSub e.st ∧ (∃ steps, e.st.status.total = newMatches (sideOf e) St.init steps) ∧
-    (e.isWriter = true → ProxiesExact e.st) ∧ (e.isWriter = false → CountOk e.st) := by
+    CountOk e.st ∧ ProxiesExact e.st ∧ ∃ steps, e.st.status.total = newMatches (sideOf e) St.init steps := by
   obtain ⟨steps, hs⟩ := world_endpoints_reachable ops e he
-  refine ⟨hs ▸ C16_proxies_matched _ steps, ⟨steps, hs ▸ C16_total _ steps⟩, ?_, ?_⟩
-  · intro hw
-    have : sideOf e = .writer := by simp [sideOf, hw]
-    rw [this] at hs
-    exact hs ▸ C16_proxies_writer steps
-  · intro hr
-    have : sideOf e = .reader := by simp [sideOf, hr]
-    rw [this] at hs
-    exact hs ▸ C16_current_reader_count steps
+  exact ⟨hs ▸ (C16_current _ steps).1, hs ▸ (C16_current _ steps).2, steps, hs ▸ C16_total _ steps⟩
 
 end DustVerif.MatchSet
